@@ -55,6 +55,8 @@
 //! is identical to the tree of the one-change-per-descent model).
 #[path = "c04node.rs"]
 mod c04node;
+#[path = "c04phys.rs"]
+mod c04phys;
 
 use crate::util::*;
 use parity_db::{BTreeIterator, ColumnOptions, CompressionType, Db, Operation, Options};
@@ -572,6 +574,8 @@ struct Case<'a> {
 	ctr: &'a mut Counters,
 	prop: &'a str,
 	ok: bool,
+	/// configuration of the physical-column check (`c04b phys`, after a reopen)
+	phys: c04phys::PhysCfg,
 }
 
 impl<'a> Case<'a> {
@@ -632,6 +636,13 @@ fn dump_check(
 			// node byte layout: oracle on every node, `c04b node` lines for a few of them
 			for p in c04node::node_lines(&d, c.t, c.ctr, 2) {
 				c.fail(&format!("NodeBytes{}: {}", what, p));
+			}
+			// physical column (R8): only on a quiescent handle (files = state, no log overlay)
+			if what == " after reopen" {
+				let cfg = c.phys.clone();
+				for p in c04phys::phys_lines(db, &d, expected, &cfg, c.t, c.ctr) {
+					c.fail(&format!("PhysColumn{}: {}", what, p));
+				}
 			}
 			(depth, loaded)
 		},
@@ -729,7 +740,13 @@ fn run_case(seed: u64, thorough: bool, root: &Path, t: &mut Trace, ctr: &mut Cou
 		20..=99 => "pool.20_99",
 		_ => "pool.100_400",
 	});
-	let mut c = Case { t, ctr, prop, ok: true };
+	let mut c = Case {
+		t,
+		ctr,
+		prop,
+		ok: true,
+		phys: c04phys::PhysCfg { compression, threshold, rc, pool: pool.clone() },
+	};
 
 	// separator codec (b): a few lengths per case against the real Entry::{write,read}_separator
 	for _ in 0..3 {
@@ -1469,7 +1486,15 @@ fn run_case(seed: u64, thorough: bool, root: &Path, t: &mut Trace, ctr: &mut Cou
 				}
 			}
 			drop(it);
-			drop(db);
+			// physical column (R8), write tie: one more real transaction, after every line of the
+			// pipeline model of this case
+			{
+				let cfg = c.phys.clone();
+				for p in c04phys::write_tie(&db, &committed, &cfg, seed, c.t, c.ctr) {
+					c.fail(&format!("PhysColumn write tie: {}", p));
+				}
+			}
+			close_db(db, 2);
 		},
 		Err(e) => c.fail(&format!("reopen failed: {:?}", e)),
 	}
